@@ -631,7 +631,7 @@ def parse(src, is_text=False):
             break
         if key == "solution_master_species":
             i = _read_masters(db, lines, i, db.masters)
-        elif key in ("solution_species", "solution_s"):
+        elif key == "solution_species":          # ("solution_s" is an alias of SOLUTION_SPREAD, not of SOLUTION_SPECIES)
             i = _read_species_block(db, lines, i, SPECIES_OPTS, db.species, "aq")
         elif key == "phases":
             i = _read_phases(db, lines, i)
